@@ -1,6 +1,7 @@
 package main
 
 import (
+	"crypto/tls"
 	"fmt"
 	"math/rand"
 	"net"
@@ -47,7 +48,9 @@ func (c17Stream) Generate(rng *rand.Rand, n int, thorough bool) []Case {
 	forms := []string{"127.0.0.1:%d", "localhost:%d", ":%d", "[::1]:%d", "::1:%d"}
 	bad := []string{"127.0.0.1", "127.0.0.1:", "[::1]", "[::1:389", "999.1.1.1:389", "1.2.3:389", ":", "", "[zz::1]:389", "zz::1:389",
 		// ports out of range; %d becomes a currently free port + 65536, so a port silently truncated to 16 bits would bind
-		"127.0.0.1:%d", "[::1]:%d", ":%d", "localhost:%d", "::1:%d", "127.0.0.1:-1", "127.0.0.1:65536", "[::1]:0x50"}
+		"127.0.0.1:%d", "[::1]:%d", ":%d", "localhost:%d", "::1:%d", "127.0.0.1:-1", "127.0.0.1:65536", "[::1]:0x50",
+		// bracket forms that only look like IPv6 literals; %d here is a free port itself
+		"[[::1]]:%p", "[::1]]:%p", "[[::1]:%p", "[]::1:%p", "[::1:%p", "[::1]x:%p"}
 	var cs []Case
 	for len(cs) < n {
 		switch rng.Intn(4) {
@@ -101,6 +104,7 @@ func (c17Stream) Impl(c Case) string {
 			if strings.Contains(addr, "%d") {
 				addr = fmt.Sprintf(addr, port+65536)
 			}
+			addr = strings.ReplaceAll(addr, "%p", fmt.Sprint(port))
 		}
 		var sawReady int32
 		stopPoll := make(chan struct{})
@@ -205,7 +209,7 @@ type c12Stream struct{}
 func (c12Stream) Name() string               { return "c12" }
 func (c12Stream) CaseTimeout() time.Duration { return 60 * time.Second }
 func (c12Stream) Rule() string {
-	return "Stop relative to Run: K connections (0..8) with handlers blocked or slow and a slow OnClose callback, clients leaving right after Stop is called; Stop before Run; two concurrent Stops and a third afterwards; clients that send requests and hang up without reading; Run and Stop started together 1500 times with random head starts; and the scripted accept race (a connection accepted, Stop runs to completion, then Run continues); oracle, sampled the instant Stop has returned and Run has returned: the port refuses connections and can be bound again, no handler is running, every accepted connection has been closed and its OnClose has completed; non-trivial = at least one connection or a scripted race, distinct by scenario"
+	return "Stop relative to Run: K connections (0..8; plain or TLS, leaving with a close or a TCP reset) with handlers blocked, slow (60 ms) or long-running (1.8 s) and a slow OnClose callback, clients leaving right after Stop is called; Stop before Run; two concurrent Stops and a third afterwards; clients that send requests and hang up without reading; Run and Stop started together 1500 times with random head starts; and the scripted accept race (a connection accepted, Stop runs to completion, then Run continues); oracle, sampled the instant Stop has returned and Run has returned: the port refuses connections and can be bound again, no handler is running, every accepted connection has been closed and its OnClose has completed; non-trivial = at least one connection or a scripted race, distinct by scenario"
 }
 
 func (c12Stream) Generate(rng *rand.Rand, n int, thorough bool) []Case {
@@ -223,8 +227,8 @@ func (c12Stream) Generate(rng *rand.Rand, n int, thorough bool) []Case {
 				cs = append(cs, Case{Line: "c12 kind=acceptRace", Kind: "acceptRace"})
 			}
 		default:
-			cs = append(cs, Case{Line: fmt.Sprintf("c12 kind=quiescent conns=%d inflight=%s slowclose=%d hangup=%d", 1+rng.Intn(8),
-				[]string{"none", "blocked", "slow"}[rng.Intn(3)], rng.Intn(2), rng.Intn(2)), Kind: "quiescent"})
+			cs = append(cs, Case{Line: fmt.Sprintf("c12 kind=quiescent conns=%d inflight=%s slowclose=%d hangup=%d tls=%d rst=%d", 1+rng.Intn(8),
+				[]string{"none", "blocked", "slow", "slow", "long"}[rng.Intn(5)], rng.Intn(2), rng.Intn(2), rng.Intn(2), rng.Intn(2)), Kind: "quiescent"})
 		}
 	}
 	return cs
@@ -247,6 +251,8 @@ func (c12Stream) Impl(c Case) string {
 				<-released
 			case "slow":
 				time.Sleep(60 * time.Millisecond)
+			case "long":
+				time.Sleep(1800 * time.Millisecond) // still busy long after Stop was called
 			}
 		}
 		answer(w, r)
@@ -330,7 +336,11 @@ func (c12Stream) Impl(c Case) string {
 		}
 		return verdict
 	}
-	sut, err := startServer(allRoutes(h, nil, nil), nil, oc)
+	var c12srvTLS, c12cliTLS *tls.Config
+	if p["tls"] == "1" && p["kind"] == "quiescent" {
+		c12srvTLS, c12cliTLS = srvTLS, cliTLS
+	}
+	sut, err := startServer(allRoutes(h, nil, nil), c12srvTLS, oc)
 	if err != nil {
 		return "harness-error start: " + err.Error()
 	}
@@ -391,8 +401,28 @@ func (c12Stream) Impl(c Case) string {
 	}
 	k := atoi(p["conns"])
 	var clients []*rawClient
+	// leave: a client goes away, politely or (rst=1) with a TCP reset, so that a TLS close_notify cannot be sent
+	leave := func(cl *rawClient) {
+		if p["rst"] == "1" {
+			var nc net.Conn = cl.c
+			if tc, ok := nc.(*tls.Conn); ok {
+				nc = tc.NetConn()
+			}
+			if t, ok := nc.(*net.TCPConn); ok {
+				_ = t.SetLinger(0)
+				_ = t.Close()
+				return
+			}
+		}
+		cl.close()
+	}
 	for i := 0; i < k; i++ {
-		cl, err := dialRaw(sut.addr, nil)
+		var ccfg *tls.Config
+		if c12cliTLS != nil {
+			ccfg = c12cliTLS.Clone()
+			ccfg.ServerName = "localhost"
+		}
+		cl, err := dialRaw(sut.addr, ccfg)
 		if err != nil {
 			return "harness-error " + err.Error()
 		}
@@ -400,7 +430,7 @@ func (c12Stream) Impl(c Case) string {
 		if p["hangup"] == "1" && p["kind"] == "quiescent" {
 			// a client that sends its requests and hangs up without waiting for any response
 			_ = cl.send(append(opFrame("search", 1), opFrame("search", 2)...))
-			cl.close()
+			leave(cl)
 			continue
 		}
 		_ = cl.send(append(opFrame("bind", 1), opFrame("search", 2)...))
@@ -439,7 +469,9 @@ func (c12Stream) Impl(c Case) string {
 	go func() { stopDone <- sut.stop(8 * time.Second) }()
 	sut.tr.Wait("stop.cancelled", -1, -1, 2*time.Second)
 	for _, cl := range clients {
-		cl.close()
+		if p["hangup"] != "1" {
+			leave(cl)
+		}
 	}
 	go func() { time.Sleep(25 * time.Millisecond); close(released) }()
 	if ok := <-stopDone; !ok {
@@ -489,10 +521,10 @@ func (c11Stream) Name() string               { return "c11" }
 func (c11Stream) CaseTimeout() time.Duration { return 60 * time.Second }
 func (c11Stream) NoModel() bool              { return true }
 func (c11Stream) Rule() string {
-	return "K connections (0..6) put into one state at the moment Stop is called - none, idle after a bind, half a frame sent, TCP connected to a TLS listener without ClientHello, StartTLS accepted but no ClientHello ever sent (Stop arriving before or after the handler calls Request.StartTLS), pipelining requests as fast as possible, or sending searches whose large results they never read - optionally with a concurrent second Stop; the clients do NOTHING to help after Stop is called; oracle: Stop returns within 3 s and Run returns nil within 3 s more; non-trivial = at least one connection, distinct by scenario"
+	return "K connections (0..6) put into one state at the moment Stop is called - none, idle after a bind, half a frame sent, TCP connected to a TLS listener without ClientHello, StartTLS accepted but no ClientHello ever sent (Stop arriving before or after the handler calls Request.StartTLS), pipelining requests as fast as possible, sending searches whose large results they never read (also followed by an Unbind, or with handlers that start writing only after Stop was called) - optionally with a concurrent second Stop and with two-minute read/write timeouts configured on the server; the clients do NOTHING to help after Stop is called; oracle: Stop returns within 3 s and Run returns nil within 3 s more; non-trivial = at least one connection, distinct by scenario"
 }
 
-var c11States = []string{"none", "idle", "partial", "tlspending", "busy", "notreading", "starttls-early", "starttls-late"}
+var c11States = []string{"none", "idle", "partial", "tlspending", "busy", "notreading", "notreading-unbind", "busy-late", "starttls-early", "starttls-late"}
 
 func (c11Stream) Generate(rng *rand.Rand, n int, thorough bool) []Case {
 	var cs []Case
@@ -502,7 +534,7 @@ func (c11Stream) Generate(rng *rand.Rand, n int, thorough bool) []Case {
 		if st == "none" {
 			k = 0
 		}
-		cs = append(cs, Case{Line: fmt.Sprintf("c11 state=%s conns=%d second=%d", st, k, rng.Intn(2)), Kind: st})
+		cs = append(cs, Case{Line: fmt.Sprintf("c11 state=%s conns=%d second=%d timeouts=%d", st, k, rng.Intn(2), rng.Intn(2)), Kind: st})
 	}
 	return cs
 }
@@ -513,7 +545,16 @@ func (c11Stream) Impl(c Case) string {
 	state, k := p["state"], atoi(p["conns"])
 	payload := strings.Repeat("z", 60000)
 	h := func(w *gldap.ResponseWriter, r *gldap.Request) {
-		if _, ok := r.VerifMessage().(*gldap.SearchMessage); ok && state == "notreading" {
+		if _, ok := r.VerifMessage().(*gldap.SearchMessage); ok && state == "busy-late" {
+			// a handler that is still computing when Stop is called and writes a large result afterwards
+			time.Sleep(300 * time.Millisecond)
+			for i := 0; i < 200; i++ {
+				if err := w.Write(r.NewSearchResponseEntry("e", gldap.WithAttributes(map[string][]string{"p": {payload}}))); err != nil {
+					return
+				}
+			}
+		}
+		if _, ok := r.VerifMessage().(*gldap.SearchMessage); ok && strings.HasPrefix(state, "notreading") {
 			for i := 0; i < 200; i++ {
 				if err := w.Write(r.NewSearchResponseEntry("e", gldap.WithAttributes(map[string][]string{"p": {payload}}))); err != nil {
 					return
@@ -531,7 +572,12 @@ func (c11Stream) Impl(c Case) string {
 		// the StartTLS handler answers, dawdles 150 ms, then starts a handshake the client never takes part in
 		stlsH = startTLSHandler(srvTLS, 0, 150*time.Millisecond)
 	}
-	sut, err := startServer(allRoutes(h, stlsH, nil), tlsc, nil)
+	var extra []gldap.Option
+	if p["timeouts"] == "1" {
+		// generous per-connection timeouts configured by the application must not postpone Stop
+		extra = append(extra, gldap.WithReadTimeout(2*time.Minute), gldap.WithWriteTimeout(2*time.Minute))
+	}
+	sut, err := startServer(allRoutes(h, stlsH, nil), tlsc, nil, extra...)
 	if err != nil {
 		return "harness-error start: " + err.Error()
 	}
@@ -578,10 +624,14 @@ func (c11Stream) Impl(c Case) string {
 					}
 				}
 			}(c)
-		case "notreading":
+		case "notreading", "notreading-unbind", "busy-late":
 			var buf []byte
 			for j := 0; j < 4; j++ {
 				buf = append(buf, opFrame("search", int64(j+1))...)
+			}
+			if state == "notreading-unbind" {
+				// the read loop ends (unbind) while the handlers are stuck writing to a client that never reads
+				buf = append(buf, Seq(Int(2, 9), P(1, 2, nil)).Ser()...)
 			}
 			_, _ = c.Write(buf)
 		}
